@@ -5,6 +5,72 @@ parameters, reordering independent statements, extracting an expression into a l
 edit no check may report a VIOLATION; INCONCLUSIVE (exit 2) is tolerated and counted.  In addition the whole package is
 re-emitted through ast.unparse (a full reformat that drops comments and re-wraps every line).
 """
+import ast
+
+def locals_of(fn):
+    params = {a.arg for a in fn.args.posonlyargs + fn.args.args + fn.args.kwonlyargs}
+    if fn.args.vararg: params.add(fn.args.vararg.arg)
+    if fn.args.kwarg: params.add(fn.args.kwarg.arg)
+    declared = set()
+    out = set()
+    stack = list(fn.body)
+    while stack:
+        n = stack.pop()
+        if isinstance(n, (ast.FunctionDef, ast.AsyncFunctionDef, ast.ClassDef, ast.Lambda)):
+            if isinstance(n, (ast.FunctionDef, ast.AsyncFunctionDef, ast.ClassDef)):
+                out.discard(n.name)
+                declared.add(n.name)     # do not rename nested def/class names
+            continue
+        if isinstance(n, (ast.Global, ast.Nonlocal)):
+            declared |= set(n.names)
+        if isinstance(n, ast.Name) and isinstance(n.ctx, (ast.Store, ast.Del)):
+            out.add(n.id)
+        if isinstance(n, ast.ExceptHandler) and n.name:
+            declared.add(n.name)         # keep exception names (handler rules print them)
+        if isinstance(n, (ast.ListComp, ast.SetComp, ast.DictComp, ast.GeneratorExp)):
+            pass
+        stack.extend(ast.iter_child_nodes(n))
+    return out - params - declared - {"_"}
+
+
+class Renamer(ast.NodeTransformer):
+    def __init__(self):
+        self.scopes = []
+
+    def visit_FunctionDef(self, node):
+        loc = locals_of(node)
+        # names shadowed by parameters of nested functions/lambdas are left alone there: skip functions where that happens
+        inner_params = set()
+        for n in ast.walk(node):
+            if n is not node and isinstance(n, (ast.FunctionDef, ast.Lambda)):
+                a = n.args
+                inner_params |= {x.arg for x in a.posonlyargs + a.args + a.kwonlyargs}
+        loc -= inner_params
+        node.decorator_list = [self.visit(d) for d in node.decorator_list]
+        node.args.defaults = [self.visit(d) for d in node.args.defaults]
+        node.args.kw_defaults = [self.visit(d) if d is not None else None for d in node.args.kw_defaults]
+        self.scopes.append(loc)
+        node.body = [self.visit(s) for s in node.body]
+        self.scopes.pop()
+        return node
+
+    visit_AsyncFunctionDef = visit_FunctionDef
+
+    def visit_Name(self, node):
+        for sc in reversed(self.scopes):
+            if node.id in sc:
+                return ast.copy_location(ast.Name(id=node.id + "_r", ctx=node.ctx), node)
+        return node
+
+
+
+
+def alpha_rename_source(src):
+    """Rename every function-local variable (suffix _r); parameters, attributes and exception names are kept."""
+    tree = Renamer().visit(ast.parse(src))
+    ast.fix_missing_locations(tree)
+    return ast.unparse(tree) + "\n"
+
 
 # (file, [(old, new), ...], description, properties that read this code)
 REFACTORS = [
